@@ -17,7 +17,7 @@ from .geometry import HorizontalAlignmentEnum, Layout
 # The following pattern captures [start], [end] and [cue settings] if existent
 TIMING_LINE_PATTERN = re.compile(r"^(\S+)\s+-->\s+(\S+)(?:\s+(.*?))?\s*$")
 TIMESTAMP_PATTERN = re.compile(r"^(\d+):(\d{2})(:\d{2})?\.(\d{3})")
-VOICE_SPAN_PATTERN = re.compile("<v(\\.\\w+)* ([^>]*)>")
+VOICE_SPAN_PATTERN = re.compile("<v(\\.[^\\s.>]+)*[ \\t]+([^>]*)>")
 OTHER_SPAN_PATTERN = re.compile(
     r"</?((?:[cibuv]|ruby|rt|lang)(?:[.\s][^>]*)?|(\d+):(\d{2})(:\d{2})?\.(\d{3}))>"
 )  # These WebVTT tags are stripped off the cues on conversion
